@@ -12,7 +12,7 @@ if [ ! -d $wt ]; then git -C /repo worktree add -q --detach $wt $head || exit 2;
 git -C $wt checkout -q --detach $head && git -C $wt checkout -q -- . || exit 2
 git -C $wt apply "$patch" || { echo "patch does not apply"; exit 2; }
 rsync -a --delete --exclude target /verif/engine/ $base/engine/
-sed -i "s|/repo/rsjsonnet-lang|$wt/rsjsonnet-lang|" $base/engine/Cargo.toml
+sed -i "s|/repo/rsjsonnet-|$wt/rsjsonnet-|g" $base/engine/Cargo.toml
 ( cd $base/engine && CARGO_NET_OFFLINE=true CARGO_TARGET_DIR=$base/engine-target cargo build --offline > $base/engine.log 2>&1 ) || { echo "BUILD-FAILED engine"; tail -20 $base/engine.log; git -C $wt checkout -q -- .; exit 2; }
 ( cd $wt && CARGO_NET_OFFLINE=true cargo build --offline -p rsjsonnet --target-dir $base/cli-target > $base/cli.log 2>&1 ) || { echo "BUILD-FAILED cli"; tail -20 $base/cli.log; git -C $wt checkout -q -- .; exit 2; }
 cd /verif
